@@ -116,6 +116,10 @@ func (p *exeParser) readSelectionSet() (sels []Selection, err error) {
 		return
 	}
 	_, _ = p.readByte() // re-read {
+	if err = p.nest(); err != nil {
+		return
+	}
+	defer func() { p.depth-- }()
 FOR:
 	for {
 		if err != nil {
